@@ -118,9 +118,9 @@ func VerifH_C13_InspectVsScanV1() {
 // verifying scan of the payload succeeds and - when the header claims an index - its codec is
 // readable; version, header and index codec are reported as found.
 func VerifH_C13_InspectVsScanV2() {
-	N := 7
+	N := 5
 	if vTier() == 1 {
-		N = 10
+		N = 7
 	}
 	root := vCidID("root")
 	hdr := vHeaderV1(root)
